@@ -71,6 +71,8 @@ fn gen_ring(r: &mut Rng, c: &Cfg, dims: usize) -> Vec<V> {
                 let mut l = v[0];
                 // a value that really differs (x + 1 is absorbed by huge and no-data values:
                 // -1e39 becomes -2e39, an infinity or NaN becomes 0)
+                // (one time in five the two vertices differ only in the SIGN of a zero measure / Z: those
+                //  are equal, the ring counts as closed)
                 let differ = |x: f64| -> f64 {
                     let y = x + 1.0;
                     if !y.is_nan() && y.to_bits() != x.to_bits() {
@@ -281,6 +283,31 @@ fn macro_instances(rep: &mut Report, ctx: &Ctx) {
     check_multipatch(&minput, &mpa.d(), case, rep);
     rep.count("macro_instances", 5);
 
+    // ---- the geo-types constructors close and orient like the ring constructors: a counter-clockwise
+    //      exterior and a clockwise hole (geo-types' own convention is the opposite of ESRI's)
+    {
+        use geo_types as g;
+        let c = |x: f64, y: f64| g::Coord { x, y };
+        let ext_ccw = vec![c(0.0, 0.0), c(8.0, 0.0), c(8.0, 8.0), c(0.0, 8.0), c(0.0, 0.0)];
+        let hole_cw = vec![c(2.0, 2.0), c(2.0, 4.0), c(4.0, 4.0), c(4.0, 2.0), c(2.0, 2.0)];
+        let gp = g::Polygon::new(g::LineString(ext_ccw.clone()), vec![g::LineString(hole_cw.clone())]);
+        let want = Polygon::with_rings(vec![
+            PolygonRing::Outer(ext_ccw.iter().map(|k| Point::new(k.x, k.y)).collect()),
+            PolygonRing::Inner(hole_cw.iter().map(|k| Point::new(k.x, k.y)).collect()),
+        ])
+        .d();
+        let mut cmpg = |name: &str, a: D| {
+            rep.count("geo_types_constructor_instances", 1);
+            if a != want {
+                rep.violation(&format!("geo-constructor/{}", name), case, J::obj(vec![("built", a.to_json()), ("with_rings", want.to_json())]));
+            }
+        };
+        cmpg("Polygon::from(geo Polygon)", Polygon::from(gp.clone()).d());
+        cmpg("Polygon::from(geo MultiPolygon)", Polygon::from(g::MultiPolygon(vec![gp.clone()])).d());
+        // open rings on the geo side are closed by geo-types itself; an open exterior handed over as it is
+        let open = g::Polygon::new(g::LineString(ext_ccw[..4].to_vec()), vec![g::LineString(hole_cw[..4].to_vec())]);
+        cmpg("Polygon::from(geo Polygon, rings given open)", Polygon::from(open).d());
+    }
     // ---- every other arm of the four macros (field syntax and tuple syntax, 2-D / M / Z), with
     //      pairwise different values per field, against the plain constructors
     let mut cmp = |name: &str, a: D, b: D| {
@@ -369,9 +396,9 @@ pub fn run(ctx: &Ctx) -> Report {
             .collect();
         if big_ring {
             let which = r.usize_in(0, input.len() - 1);
-            let l = r.usize_in(33, 200);
+            let l = if i % 100 == 17 { r.usize_in(201, 700) } else { r.usize_in(33, 200) };
             input[which].1 = (0..l).map(|_| gen_vertex(&mut r, &c)).collect();
-            rep.count("cases_with_a_ring_of_33_to_200_vertices", 1);
+            rep.count("cases_with_a_ring_of_33_to_700_vertices", 1);
         }
         if many_rings {
             rep.count("cases_with_33_to_70_rings", 1);
